@@ -266,8 +266,6 @@ def unparse_FormattedValue(node: FormattedValue, qm) -> unparse_gen_t:
     conversion = ""
     if node.conversion != -1:
         conversion = "!" + chr(node.conversion)
-    if format_spec and format_spec[-1] == "}":
-        format_spec = format_spec + " "
     # f'{{di:ct}:.2f}' (SyntaxError)
     # will be converted as
     # f'{ {di:ct}:.2f}' (Good)
